@@ -8,6 +8,7 @@ require (
 	github.com/gorilla/mux v1.8.1
 	github.com/luraproject/lura/v2 v2.0.0
 	github.com/valyala/fastrand v1.1.0
+	golang.org/x/net v0.38.0
 	golang.org/x/text v0.23.0
 )
 
@@ -25,7 +26,6 @@ require (
 	github.com/ugorji/go/codec v1.2.12 // indirect
 	github.com/urfave/negroni/v2 v2.0.2 // indirect
 	golang.org/x/crypto v0.36.0 // indirect
-	golang.org/x/net v0.38.0 // indirect
 	golang.org/x/sys v0.31.0 // indirect
 	google.golang.org/protobuf v1.35.2 // indirect
 	gopkg.in/yaml.v3 v3.0.1 // indirect
